@@ -3,5 +3,5 @@ From Coq Require Import List String.
 From SC Require Import EraseShape.
 Import ListNotations.
 Local Open Scope string_scope.
-Definition prim_shapes : list (list act) := [[AStoreV; AStoreP; AStoreV]; [AStoreV; ABarrier]; [AStoreV; ABarrier]].
+Definition prim_shapes : list (list act) := [[AStoreV]; [AStoreV; ABarrier]; [AStoreV; ABarrier]].
 Definition entry_shapes : list (string * list act) := [("memset_s", [ACall 0; ABarrier]); ("memzero_s", [AExplicit; ABarrier]); ("memzero16_s", [ACall 1; ABarrier]); ("memzero32_s", [ACall 2; ABarrier]); ("memset16_s", [ACall 1; ABarrier]); ("memset32_s", [ACall 2; ABarrier]); ("strzero_s", [AStoreP])].
